@@ -76,6 +76,7 @@ def udiv_poly(p, c):
     """floor(p / c) as a polynomial atom (exact when p is constant).  floor((P + a*c + r)/c) = floor((P + r)/c) + a: the constant term is
     reduced to [0, c) so that equal values get equal atoms"""
     if p.is_const(): return Poly.const(int(p.c()) // c) if p.c().denominator == 1 else Poly.const(p.c() / c)
+    if c == 1 and p.c().denominator == 1 and all(v.denominator == 1 for v in p.t.values()): return p          # floor(P/1) = P for integer P (a count-down by one)
     k0 = p.c()
     if k0.denominator == 1 and all(v.denominator == 1 for v in p.t.values()):
         a = int(k0) // c
